@@ -95,6 +95,23 @@ def main(inp, outp):
             rel = np.linalg.norm(bb[:3] - b0[:3]) / np.linalg.norm(b0[:3]) + np.linalg.norm(bb[3:] - b0[3:]) / np.linalg.norm(b0[3:])
             clause(f"{prop}: propagating back by -t restores the initial state", rel <= 1e-8 * (1 + abs(n * dtr)), f"kepler/inverse[{prop}]",
                    f"{prop} dt={dtr}: relative difference {rel:.3g}", data)
+            # the orbit object is modified in place between two propagations: the second one must start from the CURRENT state
+            live = base.copy(form=form)
+            live.propagator = prop
+            live.propagate(live.date + timedelta(seconds=0.11 * dtr + 60.0))
+            if form == "cartesian":
+                live[3:] = np.asarray(live[3:]) * 1.01
+            elif form == "spherical":
+                live[0] = live[0] * 1.02
+            else:
+                live[0] = live[0] * 1.05          # a, in every element form used here
+            live.date = live.date + timedelta(seconds=77.0)
+            second = live.propagate(live.date + timedelta(seconds=dt))
+            fresh = Orbit(np.asarray(live), live.date, live.form, live.frame, prop).propagate(live.date + timedelta(seconds=dt))
+            sa, sb = np.asarray(second.copy(form="cartesian"), float), np.asarray(fresh.copy(form="cartesian"), float)
+            rel = np.linalg.norm(sa[:3] - sb[:3]) / np.linalg.norm(sb[:3]) + np.linalg.norm(sa[3:] - sb[3:]) / np.linalg.norm(sb[3:])
+            clause(f"{prop}: after an in-place change of the orbit object a new propagation starts from its current state", rel <= 1e-9,
+                   f"kepler/stale-state[{prop}]", f"{prop} ({form}): differs from a fresh orbit with the same values by {rel:.3g}", data)
             if prop == "Kepler":
                 T = TWO_PI / n
                 per = o.propagate(o.date + timedelta(seconds=3 * T))
